@@ -5,10 +5,11 @@ Library side (zbus/src/fdo/properties.rs, K1; K3 in the thorough tier) — handl
               maps `None` to fdo::Error::UnknownInterface and that error leaves before the interface is used; the node
               looked up is the one named by the call's path. get: `None` from Interface::get becomes UnknownProperty.
               set: Interface::set → NotFound ⇒ every path to return builds UnknownProperty (returned as Err),
-              RequiresMut ⇒ every path goes through Interface::set_mut (which runs only on that edge), Async ⇒ the
+              RequiresMut ⇒ every path goes through Interface::set_mut, Async ⇒ the
               carried future is awaited and set_mut is not reached; `None` from Interface::set_mut ⇒ UnknownProperty.
               get_all: what Interface::get_all returned is what the handler returns.
-Generated code (#[interface] expansions with properties; fixtures of K4, fdo interfaces of K1) — the property table
+Generated code (#[interface] expansions; the fdo interfaces of K1 have no properties and are only checked for that,
+the fixtures with properties are in K4 = thorough tier or ZCHECK_K4=1, K4 costs 95-160 s to extract) — the property table
 {name: access, EmitsChangedSignal} is read from the literal pieces of the generated introspection writer and is the
 oracle ("as its annotation says"):
   P-ACCESS    names matched by `get` = keys inserted by `get_all` = properties advertised readable; names matched by
@@ -198,9 +199,6 @@ def library(ctx, f, tag):
     ok = no_return_avoiding(s, tgt("RequiresMut"), {c_mut.b})
     ctx.ob("P-TABLE", tag + "set:RequiresMut->set_mut", ok,
            "RequiresMut: every path to return goes through Interface::set_mut" if ok else "RequiresMut can return without set_mut", site)
-    ok = edge_dominates(s, sb, tgt("RequiresMut"), c_mut.b)
-    ctx.ob("P-TABLE", tag + "set:set_mut-only-after-RequiresMut", ok,
-           "Interface::set_mut runs only on the RequiresMut edge" if ok else "Interface::set_mut is reachable without a RequiresMut result", c_mut.where)
     aw_b = set()
     for c in calls:
         if c.is_("into_future") and c.args:
@@ -365,20 +363,11 @@ def check_setter_arm(ctx, it, M, name, props, emitters, getters_by_name, used):
         rec = mir.origin(M, c.args[0]) if c.args else ("none",)
         same = rec[0] in ("place", "ref") and rec[1][0] == 1
         ctx.ob("P-EMIT", key + ":emitter-on-same-object", same, "the emitter is invoked on the interface object of the arm", c.where)
-        okd = edge_dominates_any(M, herr, h, c)
-        ctx.ob("P-EMIT", key + ":emission-after-setter", mir.block_dominates(M, h.b, c.b) and c.b != h.b and okd,
-               "the emission is issued after the setter returned (and not on its Err edge)", c.where)
+        ctx.ob("P-EMIT", key + ":emission-after-setter", mir.block_dominates(M, h.b, c.b) and c.b != h.b,
+               "the emission is issued after the setter returned", c.where)
 
 
-def edge_dominates_any(M, herr, h, c):
-    """c is not reachable from the setter's Err edge(s)"""
-    for sb, errt in herr:
-        if c.b in mir.reachable(M, [errt]) and mir.preds(M)[errt] == [sb]:
-            return False
-    return True
-
-
-def generated(ctx, its):
+def generated(ctx, its, full=True):
     n_if = n_set = n_get = 0
     kinds_seen = set()
     for it in its:
@@ -513,9 +502,12 @@ def generated(ctx, its):
         for eid, names in sorted(used.items()):
             ctx.ob("P-EMIT", "%s:emitter:%s:used-by-one-property" % (it.key, short(eid)), len(names) == 1,
                    "emitter is called by the setter arm(s) of %s" % sorted(names), emitters[eid]["where"])
+    if not full:
+        return  # K1 only: the library's own interfaces have no properties (each is checked for exactly that above)
+    # MyIface (zbus/tests/iface_and_proxy/iface.rs) alone has 14 readable and 11 writable properties
     ctx.floor("P-ACCESS", "generated interfaces with properties analysed", n_if, 2)
-    ctx.floor("P-GET", "generated get arms analysed", n_get, 5)
-    ctx.floor("P-SET", "generated setter arms analysed", n_set, 5)
+    ctx.floor("P-GET", "generated get arms analysed", n_get, 14)
+    ctx.floor("P-SET", "generated setter arms analysed", n_set, 11)
     ctx.floor("P-EMIT", "annotation kinds covered by setter arms (true / invalidates / false|const)",
               len({"true", "invalidates"} & kinds_seen) + (1 if kinds_seen & {"false", "const"} else 0), 3)
 
@@ -534,10 +526,14 @@ def run(ctx):
                        "conversions; interfaces not compiled in the repository; hand-written Interface impls.")
     ctx.assumptions.append("the literal pieces of the generated introspect_to_writer format templates are contiguous in the "
                            "template constant (rustc 1.97 format_args lowering); unreadable templates fail the check")
-    L.prefetch(ctx, ["K1", "K4"])
+    cfgs = L.generated_configs(ctx)
+    L.prefetch(ctx, cfgs + (["K3"] if ctx.tier == "thorough" else []))
     f1 = ctx.facts("K1")
     library(ctx, f1, "")
     if ctx.tier == "thorough":
         library(ctx, ctx.facts("K3"), "K3:")
-    its = L.interfaces(ctx, ["K1", "K4"])
-    generated(ctx, its)
+    its = L.interfaces(ctx, cfgs)
+    generated(ctx, its, full="K4" in cfgs)
+    if "K4" not in cfgs:
+        ctx.note("quick tier: only the Properties handlers (P-TABLE) and the property-less fdo interfaces are decided; the "
+                 "generated get/set/emission rules need the fixtures of K4 (thorough tier, or ZCHECK_K4=1)")
